@@ -19,7 +19,7 @@ from hypothesis import strategies as st
 from gen.common import sched_line, stat
 from gen.topo import topologies
 
-RULE = ("case = topology + unjoined units (yield / mutex / eventual-wait bodies, children) + "
+RULE = ("variant yieldto: case = streams with 2-3 pools + a ULT that yields to every unit of the other pools + join; non-trivial = >= 1 directed switch; otherwise: case = topology + unjoined units (yield / mutex / eventual-wait bodies, children) + "
         "setters (external threads, units) + join order + schedule; non-trivial = some "
         "ABT_xstream_join/free was issued while a unit of that stream had not finished "
         "(counter xsjoin_with_pending_units) ; distinct = distinct case text")
@@ -28,7 +28,61 @@ EXEC_ENV = {"ASAN_OPTIONS": "exitcode=21:detect_leaks=0:allocator_may_return_nul
 
 
 @st.composite
+def yieldto_cases(draw, ctx):
+    """A stream must also terminate after units left its pools through the side door:
+    ABT_thread_yield_to / ABT_pool_remove take a READY unit out of the middle of a pool.
+    One or two secondary streams with a fixed-order scheduler over two or three pools; a
+    ULT in the first pool waits (by yielding: the scheduler restarts its scan at the first
+    pool after every unit, so nothing behind it runs) until the primary ULT has created its
+    targets in the other pools, then yields to them one after the other; nothing is pushed
+    afterwards, and the stream is joined."""
+    lines = [draw(sched_line(ctx, extra=" tick=10000 drain=0"))]
+    lines += ["pool 0 kind=fifo access=mpmc", "xs 0 sched=default pools=0"]
+    nxs = draw(st.integers(1, 2))
+    units, main, joins = [], [], []
+    np_ = 1
+    for x in range(1, nxs + 1):
+        k = draw(st.integers(2, 3))
+        kind = draw(st.sampled_from(["fifo", "fifo", "fifo_wait", "randws"]))
+        acc = draw(st.sampled_from(["mpmc", "mpsc"]))
+        pools = list(range(np_, np_ + k))
+        np_ += k
+        for p in pools:
+            lines.append("pool %d kind=%s access=%s" % (p, kind, acc))
+        sched = {"fifo": draw(st.sampled_from(["basic", "prio"])), "fifo_wait": "basic_wait",
+                 "randws": "prio"}[kind]
+        lines.append("xs %d sched=%s pools=%s" % (x, sched, ",".join(map(str, pools))))
+        a = len(units)
+        targets = []
+        for p in pools[1:]:
+            for _ in range(draw(st.integers(1, 2))):
+                targets.append((a + 1 + len(targets), p))
+        prog = ["fwait %d" % x] + ["tyt %d" % tu for tu, _ in draw(st.permutations(targets))]
+        if draw(st.booleans()):
+            prog.append("work 1")
+        units.append("unit %d type=ult named=0 pool=%d : %s" % (a, pools[0], "; ".join(prog)))
+        main.append("create %d" % a)
+        for tu, p in targets:
+            units.append("unit %d type=ult named=1 pool=%d : %s" %   # (yield_to needs a handle)
+                         (tu, p, draw(st.sampled_from(["nop", "work 1", "work 2"]))))
+            main.append("create %d" % tu)
+        main.append("fset %d" % x)
+        joins.append("%s %d" % (draw(st.sampled_from(["xsjoin", "xsjoin", "xsfree"])), x))
+    lines += units
+    lines.append("main : " + "; ".join(main + joins))
+    lines.append("note yieldto")
+    return "\n".join(lines) + "\n"
+
+
+@st.composite
 def cases(draw, ctx):
+    if ctx.get("variant") == "yieldto":
+        return draw(yieldto_cases(ctx))
+    return draw(cases_main(ctx))
+
+
+@st.composite
+def cases_main(draw, ctx):
     t = draw(topologies(max_xs=4, allow_subs=False))
     nxs = len(t.xs)
     main_local = t.cls(t.xs[0]["pools"][0]) == "local"
@@ -183,11 +237,14 @@ def classify(text, res, ctx):
 
 
 def nontrivial(text, res, ctx):
+    if "note yieldto" in text:
+        return stat(res, "directed_switches") >= 1
     return stat(res, "xsjoin_with_pending_units") >= 1
 
 
 PLAN = {
-    "quick": [("coarse", 10, 250), ("san", 4, 80), ("native", 2, 150)],
+    "quick": [("coarse", 9, 250), ("san", 4, 80), ("native", 2, 150), ("coarse", 2, 200, "yieldto"),
+              ("native", 1, 100, "yieldto")],
     "thorough": [("coarse", 6, 5000), ("fine", 6, 3000), ("san", 2, 1500), ("nopool", 1, 1000),
-                 ("native", 1, 2500)],
+                 ("native", 1, 2500), ("coarse", 2, 3000, "yieldto"), ("native", 1, 1000, "yieldto")],
 }
